@@ -64,16 +64,31 @@ var vOIDs = []vOIDChoice{
 	{OIDData, vOIDData},
 	{encasn1.ObjectIdentifier{1, 3, 6, 1, 4, 1, 311, 2, 1, 4}, vOIDSpc},
 	{encasn1.ObjectIdentifier{1, 2, 3, 4}, vOIDOther},
-	// a long content type: its attribute encodes longer than the signing-time attribute, so any
-	// reordering of the attribute set (e.g. DER SET OF sorting) changes the bytes
+	// a long content type: its attribute encodes longer than the signing-time attribute, so the
+	// DER SET OF order of the attributes is not the order content type, signing time, message digest
 	{encasn1.ObjectIdentifier{1, 3, 6, 1, 4, 1, 311, 2, 1, 4, 5, 6, 7, 8, 9, 10, 11}, append([]byte{0x06, 0x11}, append(append([]byte{}, vOIDSpc[2:]...), 5, 6, 7, 8, 9, 10, 11)...)},
+	// a very long content type (34 content octets): the signed attributes then exceed 127 bytes and
+	// their SET / [0] headers take the long length form
+	{encasn1.ObjectIdentifier{1, 3, 6, 1, 4, 1, 311, 2, 1, 4, 5, 6, 7, 8, 9, 10, 11, 12, 13, 14, 15, 16, 17, 18, 19, 20, 21, 22, 23, 24, 25, 26, 27, 28},
+		append([]byte{0x06, 0x22}, append(append([]byte{}, vOIDSpc[2:]...), 5, 6, 7, 8, 9, 10, 11, 12, 13, 14, 15, 16, 17, 18, 19, 20, 21, 22, 23, 24, 25, 26, 27, 28)...)},
+}
+
+// vSetOf is the content of a DER SET OF: the element encodings in ascending order, compared as
+// octet strings (X.690 §11.6).
+func vSetOf(elems ...[]byte) []byte {
+	for i := 1; i < len(elems); i++ {
+		for j := i; j > 0 && bytes.Compare(elems[j], elems[j-1]) < 0; j-- {
+			elems[j], elems[j-1] = elems[j-1], elems[j]
+		}
+	}
+	return vCat(elems...)
 }
 
 // vRefSignedAttrs is the DER SET of the signed attributes (RFC 2315 §9.2): content type, signing
-// time, message digest.
+// time, message digest, as a DER SET OF.
 func vRefSignedAttrs(oidDER []byte, now time.Time, content []byte) []byte {
 	md := sha256.Sum256(content)
-	return vDER(0x31, vCat(
+	return vDER(0x31, vSetOf(
 		vDER(0x30, vCat(vOIDContentTy, vDER(0x31, oidDER))),
 		vDER(0x30, vCat(vOIDSignTime, vDER(0x31, vDER(0x17, []byte(now.Format("060102150405Z0700")))))),
 		vDER(0x30, vCat(vOIDMsgDigest, vDER(0x31, vDER(0x04, md[:])))),
